@@ -177,12 +177,74 @@ def check_depth_terms(prog, rep, impl, dfun, site, wt, rec, np_terms, entry):
         try:
             v = _pad_rat(hd[slot], raster)
         except ValueError as e:
-            rep.add('P7a', dfun, entry, 'depth[%d] = %s' % (slot, tshow(hd[slot], 80)), line, None, str(e))
+            # not the quotient of max_distance and a resolution component: the term is evaluated on model rasters instead
+            bad = _pad_models(hd[slot], raster, ax)
+            rep.add('P7a', dfun, entry, 'depth[%d] = %s' % (slot, tshow(hd[slot], 80)), line, None if bad is None else not bad,
+                    str(e) if bad is None else 'the halo on the %s axis must reach every cell within max_distance: %s' % (
+                        'row' if ax == 'y' else 'column', '; '.join(bad[:2])))
             continue
         ok, why = pad_form(v, ax)
         rep.add('P7a', dfun, entry, 'depth[%d] = %s' % (slot, tshow(hd[slot], 80)), line, ok,
                 'the halo on the %s axis (depth slot %d) must be int(max_distance / cellsize_%s + c) with c >= 0 or a '
                 'ceil of that quotient: %s' % ('row' if ax == 'y' else 'column', slot, ax, why))
+
+
+def _pad_models(t, raster, ax):
+    """the pad term evaluated on model rasters that are taller than wide and wider than tall, with different cell sizes on the
+    two axes, ascending and descending coordinates, for several max_distance: [] when the halo covers every cell offset
+    within max_distance on axis `ax` (at least floor(max_distance / cell size) cells) each time, a list of counterexamples
+    otherwise, None when the term cannot be evaluated."""
+    from ..wterm import eval_term
+    from fractions import Fraction as Fr
+    import math
+
+    def coords_axis(c_):
+        while isinstance(c_, tuple) and c_ and c_[0] in ('data', 'cast'):
+            c_ = c_[1]
+        if isinstance(c_, tuple) and c_ and c_[0] == 'attr' and c_[2] in ('values', 'data'):
+            c_ = c_[1]
+        if isinstance(c_, tuple) and c_ and c_[0] == 'coord' and c_[1] == raster:
+            return c_[2] if c_[2] in ('x', 'y') else None
+        if isinstance(c_, tuple) and c_ and c_[0] == 'index' and c_[1] in (('attr', raster, 'coords'), raster, ('attr', raster, 'indexes')):
+            d = c_[2]
+            if d[0] in ('param', 'const') and d[1] in ('x', 'y'):
+                return d[1]
+        return None
+    bad = []
+    try:
+        for ys, xs in (([0, 5, 10, 15, 20, 25, 30], [0, 2, 4]), ([10, 5, 0], [0, 2, 4, 6, 8, 10, 12]), ([0, 5, 10], [4, 2, 0])):
+            for D in (Fr(3), Fr(10), Fr(25, 2), Fr(19)):
+                def hook(x, ys=ys, xs=xs, D=D):
+                    if not isinstance(x, tuple) or not x:
+                        return None
+                    if x == ('param', 'max_distance'):
+                        return D
+                    if x[0] == 'index' and x[1] == ('attr', raster, 'shape') and x[2][0] == 'const' and x[2][1] in (0, 1, -1, -2):
+                        return (len(ys), len(xs))[x[2][1]]
+                    if x[0] == 'index' and x[2][0] == 'const' and isinstance(x[2][1], int):
+                        a_ = coords_axis(x[1])
+                        if a_ is not None:
+                            arr = xs if a_ == 'x' else ys
+                            return arr[x[2][1]] if -len(arr) <= x[2][1] < len(arr) else None
+                        if x[1][0] == 'call' and str(x[1][1]).endswith('get_dataarray_resolution') and x[2][1] in (0, 1) and \
+                                len(x[1][2]) == 1 and x[1][2][0] == raster and not x[1][3]:
+                            return (2, 5)[x[2][1]]
+                    if x[0] == 'call' and x[1] == 'builtins.len' and len(x[2]) == 1:
+                        a_ = coords_axis(x[2][0])
+                        if a_ is not None:
+                            return len(xs if a_ == 'x' else ys)
+                    return None
+                r = eval_term(t, {'__hook__': hook, 'max_distance': D})
+                need = math.floor(D / (5 if ax == 'y' else 2))
+                if r < need:
+                    bad.append('%d x %d raster (cell size 5 along y, 2 along x), max_distance %s: %d cells needed, halo %s'
+                               % (len(ys), len(xs), D, need, r))
+    except (ValueError, ZeroDivisionError, KeyError, TypeError, IndexError) as e_:
+        import os
+        if os.environ.get('XRSA_DEBUG'):
+            print('pad model not evaluable:', e_)
+        return None
+    return bad
 
 
 def _pad_rat(t, raster):
